@@ -1266,9 +1266,11 @@ fn tyvar_of_iface_method(
     if let Some(actual_impl_ty) = actual_impl_ty
         && let Some(desired_impl_ty) = actual_impl_ty.single()
         && let Some(imp) = ctx.get_iface_impl_for_type(&desired_impl_ty.key(), iface_def)
+        // an implementation that lacks this method is reported elsewhere; fall back to the
+        // interface's own signature instead of indexing past the end
+        && let Some(f) = imp.methods.get(method).cloned()
     {
         let subst = get_substitution_of_typ(ctx, &imp.typ, &actual_impl_ty);
-        let f = &imp.methods[method];
         return TypeVar::from_node(ctx, f.name.node())
             .subst(&subst)
             .instantiate(ctx, polyvar_scope, node);
